@@ -372,6 +372,55 @@ def family_D(tier, seed, per_kind=None):
 
 
 # ------------------------------------------------------------------------------------------
+# family K: statements that mention NO field (literal-only relations, true or false) at every place a statement can stand:
+# class block, under a condition, in a with-block, in a dynamic block, in a disabled block.  A constant-false statement
+# that is in force makes the call unsatisfiable; elsewhere it changes nothing.
+# ------------------------------------------------------------------------------------------
+def family_K(tier, seed):
+    out = []
+    rnd = random.Random(9191 + (seed if tier != "quick" else 0))
+    n = 16 if tier == "quick" else 96
+    for t in range(n):
+        truth = (t % 2 == 0)
+        x, y = rnd.sample([0, 1, 2, 3, 5], 2)
+        lo_, hi_ = min(x, y), max(x, y)
+        op = rnd.choice(["lt", "le", "ne"]) if truth else rnd.choice(["gt", "ge", "eq"])
+        const = E(B(op, lit(lo_), lit(hi_)))
+        place = ["top", "cond_true", "cond_false", "with", "dyn", "disabled", "top_first", "else"][(t // 2) % 8]
+        fields = [fld("a", 2, False), fld("b", 2, rnd.random() < 0.5), fld("k", 2, False, rand=False, init=rnd.randrange(4))]
+        rel = E(B(rnd.choice(["le", "ne", "ge"]), F("a"), F("b")))
+        body, extra, inline, pre = [rel], [], [], []
+        kv = rnd.randrange(4)
+        if place == "top":
+            body = [rel, const]
+        elif place == "top_first":
+            body = [const, rel]
+        elif place == "cond_true":
+            body = [rel, {"k": "imp", "c": B("eq", F("k"), lit(kv)), "body": [const]}]
+        elif place == "cond_false":
+            body = [rel, {"k": "imp", "c": B("ne", F("k"), lit(kv)), "body": [const]}]
+        elif place == "else":
+            body = [rel, {"k": "if", "arms": [{"c": B("lt", F("a"), lit(2)), "body": [E(B("ne", F("b"), lit(1)))]}], "els": [const]}]
+        elif place == "with":
+            inline = [const]
+        elif place == "dyn":
+            extra = [{"name": "dk", "dynamic": True, "body": [const]}]
+            inline = [E({"k": "dyn", "o": "", "b": "dk"})]
+        else:
+            extra = [{"name": "c9", "dynamic": False, "body": [const]}]
+        world = one_class_world(fields, body, extra)
+        ops = [{"op": "construct", "o": "o1"}, {"op": "set", "p": "o1.k", "v": bits(kv, 2)}]
+        if place == "disabled":
+            ops.append({"op": "cmode", "o": "o1", "b": "c9", "en": False})
+        ops += [{"op": "call", "call": wcall(inline)}, {"op": "call", "call": mcall()},
+                {"op": "probe", "call": wcall(inline), "paths": ["o1.a", "o1.b"]}]
+        if place == "disabled":
+            ops += [{"op": "cmode", "o": "o1", "b": "c9", "en": True}, {"op": "call", "call": mcall()}]
+        out.append({"id": "K/%s/%s/%d" % (place, "T" if truth else "F", t), "world": world, "ops": ops, "tags": ["const_stmt"]})
+    return out
+
+
+# ------------------------------------------------------------------------------------------
 # family Q: enum fields (class members and free-standing, declared random or not)
 # ------------------------------------------------------------------------------------------
 def efld(name, values, rand=True, init=None):
